@@ -1920,7 +1920,16 @@ class Association(threading.Thread):
                     else dataset.original_encoding[1]
                 ),
             )
-            if None not in ds_encoding and ts_encoding != ds_encoding:
+            # A compressed transfer syntax is always explicit VR little endian
+            #   and the dataset is (re-)encoded from its element values, so the
+            #   encoding it was originally read with is irrelevant. Falling back
+            #   to an uncompressed syntax would send encapsulated pixel data
+            #   using an uncompressed presentation context.
+            if (
+                None not in ds_encoding
+                and ts_encoding != ds_encoding
+                and not tsyntax.is_compressed
+            ):
                 s = ("explicit VR", "implicit VR")[cast(bool, ds_encoding[0])]
                 s += (" big endian", " little endian")[cast(bool, ds_encoding[1])]
                 msg = (
